@@ -79,11 +79,12 @@ def worker(task):
         from . import reflect
         w = C.EVALFACTS[fq[5:]]
         try:
-            for name, ok, detail in w['fn'](reflect.get()):
+            for name, ok, detail, *rest in w['fn'](reflect.get()):
+                backend = rest[0] if rest else 'eval'
                 out['results'].append({
                     'name': f'eval:{fq[5:]}/{name}', 'props': list(w['props']),
                     'status': 'discharged' if ok else 'refuted',
-                    'time_s': 0.0, 'backend': 'eval', 'reason': detail, 'trail': [], 'ob_kind': 'eval',
+                    'time_s': 0.0, 'backend': backend, 'reason': detail, 'trail': [], 'ob_kind': 'eval',
                     'func': fq, 'receiver': None, 'func_kind': 'eval', 'lineno': None,
                     'goal_str': w['why'], 'model_str': detail,
                     'entry': {}, 'locals': {}, 'allowed_exceptions': [], 'static_violation': not ok,
